@@ -26,15 +26,17 @@ ENCODED = ["twisted.persisted.dirdbm:DirDBM.__init__", "twisted.persisted.dirdbm
            "twisted.python.filepath:FilePath.remove", "twisted.python.filepath:FilePath.moveTo",
            "twisted.python.filepath:FilePath.restat", "twisted.python.filepath:FilePath.listdir",
            "twisted.python.filepath:FilePath.createDirectory"]
-BOUNDS = {"quick": {"ops": 2, "n": 2, "steps": 8}, "thorough": {"ops": 3, "n": 2, "steps": 12}}
+BOUNDS = {"quick": {"ops": 2, "steps": 8}, "thorough": {"ops": 3, "steps": 12}}
 B = {}
-BOUNDS_TEXT = ("two keys, each initially absent or present with a symbolic value; <= ops operations from "
-               "{set k0 v, set k1 v, delete k0, delete k1}; every value a symbolic byte string of length <= n "
-               "(256 byte values); crash at every filesystem step 0..steps (more than any run makes) or no "
-               "crash; torn write of every length; optional second crash at step 0..2 of the recovery run by "
-               "DirDBM.__init__ on reopen; then a final clean reopen")
-OUTSIDE = ["more than two keys / longer histories / values longer than n (neither DirDBM nor FilePath "
-           "inspects a value)",
+BOUNDS_TEXT = ("two keys, each initially absent or present; <= ops operations from {set k0 v, set k1 v, delete "
+               "k0, delete k1}; every value an opaque byte string of any length >= 0 (empty included), every "
+               "written value distinguishable from every other; crash at every filesystem step 0..steps (more "
+               "than any run makes) or no crash; torn write of every length; optional second crash inside the "
+               "recovery run by DirDBM.__init__ on reopen; then a final clean reopen")
+OUTSIDE = ["more than two keys / longer histories",
+           "value *content*: neither DirDBM nor FilePath inspects a value (any attempt raises in the harness); "
+           "two different writes carrying equal bytes are not modelled as equal (the oracle is only stricter "
+           "for that)",
            "Shelf (pickled values), copyTo, clear, getModificationTime",
            "write-back caching: DirDBM calls flush() but never fsync, so data reaching the disk after the "
            "rename that publishes it is outside the filesystem contract assumed below",
@@ -45,11 +47,12 @@ ASSUMPTIONS = ["fake filesystem contract: rename/remove/mkdir are atomic; a cras
                "further call of the dead process reaches the disk (DirDBM.__setitem__ catches BaseException "
                "to remove the temporary file: that remove is part of the dead process and does not happen); "
                "model validated against the real OS on a script of 50 calls on every run",
-               "under the solver values are LBytes over symbolic text and the name `bytes` inside "
-               "twisted.persisted.dirdbm is bound to a class that compares equal to both bytes and LBytes "
-               "(so the `type(v) == bytes` guards accept them); in replay values are real bytes and nothing "
-               "but the filesystem names is rebound"]
-EXPLANATION = ("real DirDBM on a fake filesystem: symbolic operation history, values, crash step, torn-write "
+               "under the solver a value is an opaque span (fakefs.Rope: value number + symbolic length; a torn "
+               "write stores a shorter span of the same value; content access raises) and the name `bytes` "
+               "inside twisted.persisted.dirdbm is bound to a class that compares equal to both bytes and Rope "
+               "(so the `type(v) == bytes` guards accept it); in replay values are real bytes (one letter per "
+               "value) and nothing but the filesystem names is rebound"]
+EXPLANATION = ("real DirDBM on a fake filesystem: symbolic operation history, value lengths, crash step, torn-write "
                "length and recovery crash step; the reopened database is compared with a dict model")
 
 K = [b"a", b"b"]
